@@ -488,9 +488,10 @@ theorem bDependencies_spec (env : VEnv) (n : Node) (kvs : List (String × Json))
 theorem bUnevaluatedProps_blk (n : Node) (kvs : List (String × Json)) (hwf : ∀ p, p ∈ kvs → Json.WF p.2 = true)
     (anns : Anns) (ev : Spec.Ev) (hm : ∀ k, k ∈ kvs.map (·.1) → γprop anns k = ev.props.contains k) {r : Spec.R}
     (h : Spec.kwUnevaluatedProps sub n (.obj kvs) ev = some r) :
-    Blk (.obj kvs) anns r (bUnevaluatedProps rec stack n (ofJsonObj kvs) anns) := by
+    Blk (.obj kvs) anns r (bUnevaluatedProps .d2020 rec stack n (ofJsonObj kvs) anns) := by
   unfold Spec.kwUnevaluatedProps at h
   unfold bUnevaluatedProps
+  simp only [beq_d2020_d2020, if_true]
   cases hu : n.unevaluatedProperties with
   | none => simp only [hu, Option.some.injEq] at h; subst h; exact Blk_ok _ anns
   | some t =>
@@ -557,7 +558,7 @@ theorem bObject_spec (env : VEnv) (i : Info) (n : Node) (kvs : List (String × J
       bObject env rec stack n (some i) (ofJson (.obj kvs)) anns = .err) ∧
     (∀ e, conj2 r10 (conj2 r11 r12) = some e → Spec.objectLimitsOk (specEnvOf env) n (.obj kvs) = true →
       ∀ ev, AnnsMatch (.obj kvs) anns ev → ∀ ev' ru, (∀ k, k ∈ kvs.map (·.1) → ev'.props.contains k = (ev.union e).props.contains k) →
-        Spec.kwUnevaluatedProps sub n (.obj kvs) ev' = some ru →
+        Spec.kwUnevaluatedProps sub (Spec.vocab env.draft n) (.obj kvs) ev' = some ru →
         Blk (.obj kvs) anns (conj2 (some e) ru) (bObject env rec stack n (some i) (ofJson (.obj kvs)) anns)) := by
   obtain ⟨hnd, hwfv⟩ := Json.WF_obj hj
   have hwf : ∀ p, p ∈ kvs → Json.WF p.2 = true := fun p hp => hwfv p.1 p.2 hp
@@ -566,8 +567,8 @@ theorem bObject_spec (env : VEnv) (i : Info) (n : Node) (kvs : List (String × J
       Res.bind (pnPart rec stack n (ofJsonObj kvs)) fun _ =>
       Res.bind (bObjectLimits n (some i) (ofJsonObj kvs)) fun _ =>
       Res.bind (bDependencies env rec stack n (ofJson (.obj kvs)) (ofJsonObj kvs) (anns.noteProperties ev)) fun a =>
-      bUnevaluatedProps rec stack n (ofJsonObj kvs) a := by
-    simp only [ofJson, bObject]
+      bUnevaluatedProps .d2020 rec stack (Spec.vocab env.draft n) (ofJsonObj kvs) a := by
+    simp only [ofJson, bObject, ← bUnevaluatedProps_vocab]
     rfl
   rw [hform, objectLimitsOk_obj]
   have hd : (specEnvOf env).draft = env.draft := rfl
@@ -610,7 +611,7 @@ theorem bObject_spec (env : VEnv) (i : Info) (n : Node) (kvs : List (String × J
               · intro k _; simp [Spec.Ev.union]
               · intro m _; simp [Spec.Ev.union]
             apply Blk_of_Ext hx12
-            apply bUnevaluatedProps_blk H n kvs hwf a2 ev' _ hru
+            apply bUnevaluatedProps_blk H (Spec.vocab env.draft n) kvs hwf a2 ev' _ hru
             intro k hk
             rw [hev k hk, hx12.1 k hk, hm.1 k hk]
             simp only [Spec.Ev.union, List.contains_append]
